@@ -69,7 +69,11 @@ def _encodable_text(encoding, **kw):
             return False
 
     piece = st.one_of(st.text(alpha, max_size=12), interesting.filter(ok))
-    return st.lists(piece, max_size=8).map("".join)
+    body = st.lists(piece, max_size=8).map("".join)
+    # the first and last code points matter to codecs and newline handling (byte order marks, trailing
+    # line terminators, Ctrl-Z): put the interesting ones there on purpose
+    edge = st.one_of(st.just(""), st.just(""), interesting.filter(ok))
+    return st.tuples(edge, body, edge).map("".join)
 
 
 def _json_values():
